@@ -9,9 +9,10 @@ SPEC_FUNCS = {}     # qualname -> function
 
 
 class LoopSpec:
-    def __init__(self, inv, types=None, decreases=None, modifies=(), ghost=()):
+    def __init__(self, inv, types=None, decreases=None, modifies=(), ghost=(), capture=None):
         self.inv, self.types, self.decreases = inv, dict(types or {}), decreases
         self.modifies, self.ghost = list(modifies), list(ghost)
+        self.capture = dict(capture or {})   # ghost locals bound at loop entry: name -> fn(locals...) (usable in invariants and post)
 
 
 class Contract:
@@ -33,6 +34,7 @@ class Contract:
         self.why = ""           # justification for assumed contracts
         self.ghost = {}          # ghost (skolem) parameters: arbitrary constants when verifying, universally quantified at call sites
         self.observe = {}        # name -> fn(params...) : observer terms whose model values are reported with counter-models
+        self.pure = False         # result is a function of the arguments and nothing is written: may be hoisted out of binders
         self.fresh_result = False  # the returned object is newly allocated by the function (checked when verifying)
         self.ghost_init = None  # fn(engine, state) -> None, sets up ghost state for verification
         self.concretise = None  # fn(model dict) -> (args, kwargs) for native replay
